@@ -5,7 +5,9 @@ from harness.verdict import Result
 
 def run(tier, seed):
     res = Result("C19", tier, seed, "model_checking")
-    for kind, xs in (("hg", None), ("temp", [0, 1]), ("mux", ["L1", "L2"])):
+    kinds = (("hg", None), ("temp", [0, 1]), ("mux", ["L1", "L2"])) if tier == "thorough" else \
+            (("hg", None), ("temp", [1]), ("mux", ["L1"]))
+    for kind, xs in kinds:
         explore(res, kind, tier, module="MC_Derive", invariants=["KeepRemoveDual", "FilterSound"],
                 configs=[dict(n=2, maxw=1, batches=False, metaops=True, xs=xs, mvals=("1",))])
     for kind in ("hg", "dir", "temp", "mux"):
